@@ -199,6 +199,9 @@ def _lattice_case(draw, tier):
     spell = draw(st.sampled_from(["tuple_sizes", "tuple_amounts",
                                   "tuple_both"]))
   entry = draw(st.sampled_from(LAT_ENTRIES))
+  if (TUPLE_SPELLINGS and entry == "layer" and spell == "list" and
+      draw(st.integers(0, 4)) == 0):
+    spell = draw(st.sampled_from(["tuple_sizes", "tuple_sizes", "tuple_both"]))
   atype = draw(st.sampled_from(ATYPES))
   l1, l2 = draw(_amounts(len(sizes), True, atype))
   case = {
